@@ -118,7 +118,16 @@ func sl[T any](xs []T, emptyNotNil bool) []T {
 		}
 		return nil
 	}
-	return xs
+	// a copy: the plain input (replayed, printed as JSON after the call) shares no memory with the objects given to the code
+	return append([]T(nil), xs...)
+}
+
+func ptrCopy[T any](p *T) *T {
+	if p == nil {
+		return nil
+	}
+	v := *p
+	return &v
 }
 
 func realParam(p Param, enn bool) experimentsv1beta1.ParameterSpec {
@@ -183,11 +192,11 @@ func realExperiment(e *Experiment, enn bool) *experimentsv1beta1.Experiment {
 		es.AlgorithmSettings = sl(es.AlgorithmSettings, enn)
 		r.Spec.EarlyStopping = es
 	}
-	r.Spec.ParallelTrialCount = e.Parallel
-	r.Spec.MaxTrialCount = e.Max
+	r.Spec.ParallelTrialCount = ptrCopy(e.Parallel)
+	r.Spec.MaxTrialCount = ptrCopy(e.Max)
 	if e.Nas != nil {
 		n := &experimentsv1beta1.NasConfig{GraphConfig: experimentsv1beta1.GraphConfig{
-			NumLayers: e.Nas.Graph.Layers, InputSizes: sl(e.Nas.Graph.Inputs, enn), OutputSizes: sl(e.Nas.Graph.Outputs, enn)}}
+			NumLayers: ptrCopy(e.Nas.Graph.Layers), InputSizes: sl(e.Nas.Graph.Inputs, enn), OutputSizes: sl(e.Nas.Graph.Outputs, enn)}}
 		for _, o := range e.Nas.Ops {
 			n.Operations = append(n.Operations, experimentsv1beta1.Operation{OperationType: o.Type, Parameters: realParams(o.Params, enn)})
 		}
@@ -213,7 +222,10 @@ func realTrial(t Trial, enn bool) trialsv1beta1.Trial {
 	}
 	r.Spec.ParameterAssignments = sl(r.Spec.ParameterAssignments, enn)
 	if len(t.Labels) > 0 {
-		r.Spec.Labels = t.Labels
+		r.Spec.Labels = map[string]string{}
+		for k, v := range t.Labels {
+			r.Spec.Labels[k] = v
+		}
 	} else if enn {
 		r.Spec.Labels = map[string]string{}
 	}
